@@ -1,384 +1,26 @@
 /-
-  Simulation between a history of add_* calls and the same history without its rejected calls (C20, all steps).
+  Whole histories of `add_*` calls: the rejected calls of a history can be struck out.
+
+  (Before the repair that registers a set with its logical file only once the object exists, a rejected call left
+  an empty set key behind, and this file carried a simulation relation between a history and the history without
+  its rejected calls, valid under two provisos — the two former known findings of C20.  Now a rejected call is the
+  identity on the state, and the statement is an equality of states for every history.)
 -/
 import Dlismodel.Proofs.Api
 namespace Dlis
 
-/-! ### many steps: the history with the rejected calls against the history without them -/
+theorem run_cons (w : World) (op : Op) (ops : List Op) : run w (op :: ops) = run (step w op) ops := rfl
 
-def originKeys (w : World) (lf : Nat) : List Key := (lfKeys w lf).filter (fun k => k.1 = 0)
-
-theorem originsOfLf_eq (w : World) (lf : Nat) : originsOfLf w lf = (originKeys w lf).flatMap (itemsOfKey w) := rfl
-
-/-- the part of the registry after the insertion point holds no key of the inserted key's kind -/
-theorem insertKey_split' (ks : List Key) (k : Key) (h : k ∉ ks) :
-    ∃ a b, ks = a ++ b ∧ insertKey ks k = a ++ [k] ++ b ∧ ∀ x ∈ b, x.1 ≠ k.1 := by
-  unfold insertKey
-  rw [if_neg h]
-  split
-  · exact ⟨ks, [], by simp, by simp, by simp⟩
-  · rename_i pre hpre
-    refine ⟨(ks.reverse.dropWhile fun x => decide (x.1 ≠ k.1)).reverse,
-            (ks.reverse.takeWhile fun x => decide (x.1 ≠ k.1)).reverse, ?_, ?_, ?_⟩
-    · have hl := List.takeWhile_append_dropWhile (p := fun x => decide (x.1 ≠ k.1)) (l := ks.reverse)
-      rw [← List.reverse_append, hl, List.reverse_reverse]
-    · have hl := List.takeWhile_append_dropWhile (p := fun x => decide (x.1 ≠ k.1)) (l := ks.reverse)
-      have hks : ks = (ks.reverse.dropWhile fun x => decide (x.1 ≠ k.1)).reverse ++
-          (ks.reverse.takeWhile fun x => decide (x.1 ≠ k.1)).reverse := by
-        rw [← List.reverse_append, hl, List.reverse_reverse]
-      congr 1
-      conv => lhs; rw [hks]
-      rw [List.drop_left' (by simp)]
-    · intro x hx
-      have hall := List.all_takeWhile (p := fun x : Key => decide (x.1 ≠ k.1)) (l := ks.reverse)
-      rw [List.all_eq_true] at hall
-      have := hall x (List.mem_reverse.mp hx)
-      simpa using this
-
-theorem filter_origin_insertKey_other (ks : List Key) (k : Key) (hk : k.1 ≠ 0) :
-    (insertKey ks k).filter (fun x => x.1 = 0) = ks.filter (fun x => x.1 = 0) := by
-  by_cases h : k ∈ ks
-  · simp [insertKey, h]
-  · obtain ⟨a, b, h1, h2, _⟩ := insertKey_split' ks k h
-    rw [h2, h1]
-    simp [List.filter_append, hk]
-
-theorem filter_origin_insertKey_origin (ks : List Key) (k : Key) (hk : k.1 = 0) :
-    (insertKey ks k).filter (fun x => x.1 = 0) =
-      if k ∈ ks then ks.filter (fun x => x.1 = 0) else ks.filter (fun x => x.1 = 0) ++ [k] := by
-  by_cases h : k ∈ ks
-  · simp [insertKey, h]
-  · obtain ⟨a, b, h1, h2, h3⟩ := insertKey_split' ks k h
-    rw [if_neg h, h2, h1]
-    have hb : b.filter (fun x => x.1 = 0) = [] := by
-      rw [List.filter_eq_nil_iff]
-      intro x hx
-      have := h3 x hx
-      simp; omega
-    simp [List.filter_append, hk, hb]
-
-def Op.key : Op → Key
-  | .item _ kind sn _ _ _ => (kind, normName sn)
-  | .origin _ sn _ _ _ => (0, normName sn)
-
-def Op.isOrigin : Op → Bool
-  | .origin .. => true
-  | _ => false
-
-/-- `w`: the state reached without the rejected calls, `w'`: with them (`all`: the calls of the whole history) -/
-structure Inv (all : List Op) (w w' : World) : Prop where
-  items : w'.items = w.items
-  hdr : w'.headerOrigin = w.headerOrigin
-  len : w'.keys.length = w.keys.length
-  okeys : ∀ lf, originKeys w' lf = originKeys w lf
-  sub : ∀ lf k, k ∈ lfKeys w lf → k ∈ lfKeys w' lf
-  bf : ∀ lf, ∀ i ∈ w.items, i.key ∈ lfKeys w' lf → i.key ∈ lfKeys w lf
-  reg : RegInv w
-  prov : ∀ i ∈ w.items, ∃ a ∈ all, a.lf = i.lf ∧ a.key = i.key
-  kprov : ∀ lf k, k ∈ lfKeys w' lf → ∃ b ∈ all, b.lf = lf ∧ b.key = k
-
-theorem originsOfLf_congr {w w' : World} (hi : w'.items = w.items) (lf : Nat)
-    (hk : originKeys w' lf = originKeys w lf) : originsOfLf w' lf = originsOfLf w lf := by
-  rw [originsOfLf_eq, originsOfLf_eq, hk]
-  congr 1
-  funext k
-  simp [itemsOfKey, hi]
-
-theorem mem_originKeys {w : World} {lf : Nat} {k : Key} (hk : k.1 = 0) : k ∈ lfKeys w lf ↔ k ∈ originKeys w lf := by
-  simp [originKeys, hk]
-
-theorem originKeys_touch (w : World) (lf lf' : Nat) (k : Key) (h : lf' < w.keys.length) :
-    originKeys (touchKey w lf' k) lf =
-      if lf = lf' ∧ k.1 = 0 ∧ k ∉ lfKeys w lf then originKeys w lf ++ [k] else originKeys w lf := by
-  unfold originKeys
-  rw [lfKeys_touch w lf lf' k h]
-  by_cases e : lf = lf'
-  · simp only [e, ↓reduceIte, true_and]
-    by_cases hk : k.1 = 0
-    · rw [filter_origin_insertKey_origin _ _ hk]
-      by_cases hm : k ∈ lfKeys w lf' <;> simp [hk, hm]
-    · rw [filter_origin_insertKey_other _ _ hk]
-      simp [hk]
-  · simp [e]
-
-/-- both histories register the same key (an accepted call, or an `add_origin` whose reference is taken) -/
-theorem Inv.touch_both {all : List Op} {w w' : World} (h : Inv all w w') (op : Op) (hop : op ∈ all)
-    (hlf : op.lf < w.keys.length) (k : Key) (hk : k = op.key) :
-    Inv all (touchKey w op.lf k) (touchKey w' op.lf k) := by
-  have hlf' : op.lf < w'.keys.length := by rw [h.len]; exact hlf
-  refine ⟨h.items, h.hdr, by simp [touchKey, h.len], ?_, ?_, ?_, RegInv_touch w op.lf k hlf h.reg, h.prov, ?_⟩
-  · intro lf
-    rw [originKeys_touch _ _ _ _ hlf', originKeys_touch _ _ _ _ hlf, h.okeys lf]
-    by_cases hk0 : k.1 = 0
-    · have : k ∈ lfKeys w' lf ↔ k ∈ lfKeys w lf := by
-        rw [mem_originKeys hk0, mem_originKeys hk0, h.okeys lf]
-      simp [this]
-    · simp [hk0]
-  · intro lf k' hk'
-    rw [lfKeys_touch _ _ _ _ hlf] at hk'
-    rw [lfKeys_touch _ _ _ _ hlf']
-    split at hk'
-    · rename_i e; simp only [e, ↓reduceIte]
-      rcases (mem_insertKey _ _ _).mp hk' with rfl | hm
-      · exact (mem_insertKey _ _ _).mpr (Or.inl rfl)
-      · exact (mem_insertKey _ _ _).mpr (Or.inr (h.sub _ _ (e ▸ hm)))
-    · rename_i e; simp only [e, ↓reduceIte]; exact h.sub _ _ hk'
-  · intro lf i hi hik
-    have hi' : i ∈ w.items := hi
-    rw [lfKeys_touch _ _ _ _ hlf'] at hik
-    rw [lfKeys_touch _ _ _ _ hlf]
-    split at hik
-    · rename_i e; simp only [e, ↓reduceIte]
-      rcases (mem_insertKey _ _ _).mp hik with he | hm
-      · exact (mem_insertKey _ _ _).mpr (Or.inl he)
-      · exact (mem_insertKey _ _ _).mpr (Or.inr (h.bf _ i hi' (e ▸ hm)))
-    · rename_i e; simp only [e, ↓reduceIte]; exact h.bf _ i hi' hik
-  · intro lf k' hk'
-    rw [lfKeys_touch _ _ _ _ hlf'] at hk'
-    split at hk'
-    · rename_i e
-      rcases (mem_insertKey _ _ _).mp hk' with rfl | hm
-      · exact ⟨op, hop, e.symm, hk.symm⟩
-      · exact h.kprov _ _ hm
-    · exact h.kprov _ _ hk'
-
-/-- only the history with the rejected calls registers the key (a rejected `add_<kind>`, kind ≠ ORIGIN) -/
-theorem Inv.touch_right {all : List Op} {w w' : World} (h : Inv all w w') (op : Op) (hop : op ∈ all)
-    (hdisj : ∀ a ∈ all, ∀ b ∈ all, a.key = b.key → a.lf = b.lf)
-    (hlf : op.lf < w.keys.length) (k : Key) (hk : k = op.key) (hk0 : k.1 ≠ 0) :
-    Inv all w (touchKey w' op.lf k) := by
-  have hlf' : op.lf < w'.keys.length := by rw [h.len]; exact hlf
-  refine ⟨h.items, h.hdr, by simp [touchKey, h.len], ?_, ?_, ?_, h.reg, h.prov, ?_⟩
-  · intro lf
-    rw [originKeys_touch _ _ _ _ hlf', h.okeys lf]
-    simp [hk0]
-  · intro lf k' hk'
-    rw [lfKeys_touch _ _ _ _ hlf']
-    split
-    · rename_i e; exact (mem_insertKey _ _ _).mpr (Or.inr (h.sub _ _ hk'))
-    · exact h.sub _ _ hk'
-  · intro lf i hi hik
-    rw [lfKeys_touch _ _ _ _ hlf'] at hik
-    split at hik
-    · rename_i e
-      rcases (mem_insertKey _ _ _).mp hik with he | hm
-      · -- an object under the rejected call's key: it was added through the same logical file
-        obtain ⟨a, ha, hal, hak⟩ := h.prov i hi
-        have : a.lf = op.lf := hdisj a ha op hop (by rw [hak, he, hk])
-        have hil : i.lf = lf := by rw [← hal, this, e]
-        rw [← hil]; exact h.reg.itemKey i hi
-      · exact h.bf _ i hi hm
-    · exact h.bf _ i hi hik
-  · intro lf k' hk'
-    rw [lfKeys_touch _ _ _ _ hlf'] at hk'
-    split at hk'
-    · rename_i e
-      rcases (mem_insertKey _ _ _).mp hk' with rfl | hm
-      · exact ⟨op, hop, e.symm, hk.symm⟩
-      · exact h.kprov _ _ hm
-    · exact h.kprov _ _ hk'
-
-/-- the same object is registered in both histories; its key is already registered in its logical file -/
-theorem Inv.append {all : List Op} {w w' : World} (h : Inv all w w') (op : Op) (hop : op ∈ all)
-    (hdisj : ∀ a ∈ all, ∀ b ∈ all, a.key = b.key → a.lf = b.lf) (it : Item)
-    (hl : it.lf = op.lf) (hkey : it.key = op.key) (hreg : it.key ∈ lfKeys w it.lf) :
-    Inv all (appendItem w it) (appendItem w' it) := by
-  have hk : ∀ (v : World) lf, lfKeys (appendItem v it) lf = lfKeys v lf := fun _ _ => rfl
-  have hok : ∀ (v : World) lf, originKeys (appendItem v it) lf = originKeys v lf := fun _ _ => rfl
-  refine ⟨by simp [appendItem, h.items], h.hdr, h.len, ?_, ?_, ?_, RegInv_append w it h.reg hreg, ?_, ?_⟩
-  · intro lf; rw [hok, hok]; exact h.okeys lf
-  · intro lf k hk'; rw [hk] at hk' ⊢; exact h.sub _ _ hk'
-  · intro lf i hi hik
-    rw [hk] at hik ⊢
-    simp only [appendItem, List.mem_append, List.mem_singleton] at hi
-    rcases hi with hi | rfl
-    · exact h.bf _ i hi hik
-    · -- the new object's key in the other history's registry of `lf`: that registry entry stems from a call
-      -- through `lf`, and calls through different logical files name different sets
-      by_cases e : lf = i.lf
-      · rw [e]; exact hreg
-      · exfalso
-        obtain ⟨b, hb, hbl, hbk⟩ := h.kprov _ _ hik
-        have : b.lf = op.lf := hdisj b hb op hop (by rw [hbk, hkey])
-        exact e (by rw [← hbl, this, hl])
-  · intro i hi
-    simp only [appendItem, List.mem_append, List.mem_singleton] at hi
-    rcases hi with hi | rfl
-    · exact h.prov i hi
-    · exact ⟨op, hop, hl.symm, hkey.symm⟩
-  · intro lf k hk'; rw [hk] at hk'; exact h.kprov _ _ hk'
-
-/-- back-filling the first origin's reference reaches the same objects in both histories -/
-theorem Inv.backfill {all : List Op} {w w' : World} (h : Inv all w w') (lf : Nat) (r : Int) :
-    Inv all (backfill w lf r) (backfill w' lf r) := by
-  have hk : ∀ (v : World) l, lfKeys (Dlis.backfill v lf r) l = lfKeys v l := fun _ _ => rfl
-  have hok : ∀ (v : World) l, originKeys (Dlis.backfill v lf r) l = originKeys v l := fun _ _ => rfl
-  have hmem : ∀ i ∈ (Dlis.backfill w lf r).items, ∃ j ∈ w.items, i.key = j.key ∧ i.lf = j.lf := by
-    intro i hi
-    simp only [Dlis.backfill, List.mem_map] at hi
-    obtain ⟨j, hj, rfl⟩ := hi
-    refine ⟨j, hj, ?_, ?_⟩ <;> split <;> rfl
-  refine ⟨?_, ?_, h.len, ?_, ?_, ?_, RegInv_backfill w lf r h.reg, ?_, ?_⟩
-  · simp only [Dlis.backfill, h.items]
-    apply List.map_congr_left
-    intro i hi
-    have : i.key ∈ lfKeys w' lf ↔ i.key ∈ lfKeys w lf := ⟨h.bf lf i hi, h.sub lf i.key⟩
-    simp [this]
-  · simp [Dlis.backfill, h.hdr]
-  · intro l; rw [hok, hok]; exact h.okeys l
-  · intro l k hk'; rw [hk] at hk' ⊢; exact h.sub _ _ hk'
-  · intro l i hi hik
-    rw [hk] at hik ⊢
-    obtain ⟨j, hj, hkj, _⟩ := hmem i hi
-    rw [hkj] at hik ⊢
-    exact h.bf _ j hj hik
-  · intro i hi
-    obtain ⟨j, hj, hkj, hlj⟩ := hmem i hi
-    obtain ⟨a, ha, hal, hak⟩ := h.prov j hj
-    exact ⟨a, ha, by rw [hal, hlj], by rw [hak, hkj]⟩
-  · intro l k hk'; rw [hk] at hk'; exact h.kprov _ _ hk'
-
-theorem Inv.originsOfLf {all : List Op} {w w' : World} (h : Inv all w w') (lf : Nat) :
-    originsOfLf w' lf = originsOfLf w lf := originsOfLf_congr h.items lf (h.okeys lf)
-
-theorem Inv.copyNumber {all : List Op} {w w' : World} (h : Inv all w w') (k : Key) (n : PStr) :
-    copyNumber w' k n = copyNumber w k n := copyNumber_items _ _ h.items k n
-
-theorem mem_lfKeys_touch_self (w : World) (lf : Nat) (k : Key) (h : lf < w.keys.length) :
-    k ∈ lfKeys (touchKey w lf k) lf := by
-  rw [lfKeys_touch _ _ _ _ h]; simp only [↓reduceIte]; exact (mem_insertKey _ _ _).mpr (Or.inl rfl)
-
-/-- one call: accepted in both histories, or rejected (then it is not an `add_origin`) and seen by one only -/
-theorem Inv.step {all : List Op} {w w' : World} (h : Inv all w w') (op : Op) (hop : op ∈ all)
-    (hdisj : ∀ a ∈ all, ∀ b ∈ all, a.key = b.key → a.lf = b.lf)
-    (hlf : op.lf < w.keys.length) (hrej : op.rejected = true → op.isOrigin = false) :
-    Inv all (if op.rejected then w else Dlis.step w op) (Dlis.step w' op) := by
-  cases op with
-  | item lf kind sn name oref out =>
-    simp only [Dlis.step]
-    by_cases hk0 : kind = 0
-    · simp only [hk0, ↓reduceIte]; split <;> exact h
-    · simp only [hk0, ↓reduceIte]
-      have hlf0 : lf < w.keys.length := hlf
-      cases out with
-      | ok =>
-        have hb : Inv all (touchKey w lf (kind, normName sn)) (touchKey w' lf (kind, normName sn)) :=
-          h.touch_both (.item lf kind sn name oref .ok) hop hlf (kind, normName sn) rfl
-        simp only [Op.rejected, bne_self_eq_false, Bool.false_eq_true, ↓reduceIte, addItem]
-        have e1 : defaultOrigin (touchKey w' lf (kind, normName sn)) lf = defaultOrigin (touchKey w lf (kind, normName sn)) lf := by
-          simp only [defaultOrigin, hb.originsOfLf lf]
-        rw [e1, h.copyNumber]
-        exact hb.append _ hop hdisj _ rfl rfl (mem_lfKeys_touch_self w lf (kind, normName sn) hlf0)
-      | rejectEarly =>
-        simp only [Op.rejected, addItem]
-        exact (h.touch_right _ hop hdisj hlf (kind, normName sn) rfl hk0 : Inv all w (touchKey w' lf (kind, normName sn)))
-      | rejectLate =>
-        simp only [Op.rejected, addItem]
-        exact (h.touch_right _ hop hdisj hlf (kind, normName sn) rfl hk0 : Inv all w (touchKey w' lf (kind, normName sn)))
-  | origin lf sn name oref out =>
-    have hout : out = .ok := by
-      cases out
-      · rfl
-      · have := hrej (by simp [Op.rejected]); simp [Op.isOrigin] at this
-      · have := hrej (by simp [Op.rejected]); simp [Op.isOrigin] at this
-    subst hout
-    have hlf0 : lf < w.keys.length := hlf
-    have hb : Inv all (touchKey w lf (0, normName sn)) (touchKey w' lf (0, normName sn)) :=
-      h.touch_both (.origin lf sn name oref .ok) hop hlf (0, normName sn) rfl
-    simp only [Op.rejected, bne_self_eq_false, Bool.false_eq_true, ↓reduceIte, Dlis.step, addOrigin]
-    rw [hb.originsOfLf lf]
-    cases hnr : newOriginRef (Dlis.originsOfLf (touchKey w lf (0, normName sn)) lf) oref with
-    | error e => exact hb
-    | ok r =>
-      simp only
-      rw [h.copyNumber]
-      have ha := hb.append _ hop hdisj
-        { lf := lf, kind := 0, setName := normName sn, name := name, origin := some r, copy := Dlis.copyNumber w (0, normName sn) name }
-        rfl rfl (mem_lfKeys_touch_self w lf (0, normName sn) hlf0)
-      rw [ha.originsOfLf lf]
-      split
-      · exact ha.backfill lf r
-      · exact ha
-
-theorem lfKeys_init (n lf : Nat) : lfKeys (World.init n) lf = [] := by
-  unfold lfKeys World.init
-  simp only [List.getD_eq_getElem?_getD]
-  by_cases h : lf < n
-  · simp [h]
-  · simp [h]
-
-theorem Inv.init (all : List Op) (n : Nat) : Inv all (World.init n) (World.init n) := by
-  refine ⟨rfl, rfl, rfl, fun _ => rfl, fun _ _ h => h, fun _ _ _ h => h, RegInv_init n, ?_, ?_⟩
-  · intro i hi; simp [World.init] at hi
-  · intro lf k hk; rw [lfKeys_init] at hk; simp at hk
-
-theorem Inv.run {all : List Op} (hdisj : ∀ a ∈ all, ∀ b ∈ all, a.key = b.key → a.lf = b.lf) (n : Nat)
-    (ops : List Op) (hsub : ∀ op ∈ ops, op ∈ all) (hv : ∀ op ∈ ops, op.lf < n)
-    (hrej : ∀ op ∈ ops, op.rejected = true → op.isOrigin = false) :
-    ∀ w w', w.keys.length = n → Inv all w w' →
-      Inv all (Dlis.run w (ops.filter fun o => !o.rejected)) (Dlis.run w' ops) := by
-  induction ops with
-  | nil => intro w w' _ h; exact h
+/-- the state after any history is the state after the history without its rejected calls -/
+theorem rejected_calls_invisible (w : World) (ops : List Op) :
+    run w ops = run w (ops.filter fun o => !o.rejected) := by
+  induction ops generalizing w with
+  | nil => rfl
   | cons op ops ih =>
-    intro w w' hn h
-    have hs := h.step op (hsub op (by simp)) hdisj (by rw [hn]; exact hv op (by simp)) (hrej op (by simp))
-    have ih' := ih (fun o ho => hsub o (by simp [ho])) (fun o ho => hv o (by simp [ho]))
-      (fun o ho => hrej o (by simp [ho]))
-    simp only [Dlis.run, List.foldl_cons] at ih' ⊢
-    by_cases hr : op.rejected = true
-    · simp only [hr, ↓reduceIte] at hs
-      simp only [List.filter_cons, hr, Bool.not_true, Bool.false_eq_true, ↓reduceIte]
-      exact ih' w _ hn hs
-    · have hr' : op.rejected = false := by simpa using hr
-      simp only [hr', Bool.false_eq_true, ↓reduceIte] at hs
-      simp only [List.filter_cons, hr', Bool.not_false, ↓reduceIte, List.foldl_cons]
-      exact ih' _ _ (by rw [keys_length_step, hn]) hs
-
-theorem mem_setRecords_iff (w : World) (lf : Nat) (k : Key) (its : List Item) :
-    (k, its) ∈ setRecords w lf ↔ k ∈ lfKeys w lf ∧ its = itemsOfKey w k ∧ its ≠ [] := by
-  constructor
-  · exact mem_setRecords w lf k its
-  · rintro ⟨hk, rfl, hne⟩
-    unfold setRecords
-    simp only [List.mem_filterMap, List.mem_append, List.mem_filter]
-    refine ⟨k, ?_, ?_⟩
-    · by_cases h0 : k.1 = 0
-      · exact Or.inl ⟨hk, by simp [h0]⟩
-      · exact Or.inr ⟨hk, by simp [h0]⟩
-    · have : (itemsOfKey w k).isEmpty = false := by
-        cases hi : itemsOfKey w k with
-        | nil => exact absurd hi hne
-        | cons _ _ => rfl
-      simp [this]
-
-/-- C20, every history: the objects (with their origin references and copy numbers), the file headers' origins and
-the set records of every logical file are those of the same history *without its rejected calls*, provided no
-`add_origin` call is among the rejected ones and calls made through different logical files name different sets
-(the two known findings lie exactly outside these two provisos) -/
-theorem rejected_calls_invisible (n : Nat) (ops : List Op) (hv : ∀ op ∈ ops, op.lf < n)
-    (hrej : ∀ op ∈ ops, op.rejected = true → op.isOrigin = false)
-    (hdisj : ∀ a ∈ ops, ∀ b ∈ ops, a.key = b.key → a.lf = b.lf) :
-    (run (World.init n) ops).items = (run (World.init n) (ops.filter fun o => !o.rejected)).items ∧
-    (run (World.init n) ops).headerOrigin = (run (World.init n) (ops.filter fun o => !o.rejected)).headerOrigin ∧
-    ∀ lf p, p ∈ setRecords (run (World.init n) ops) lf ↔
-      p ∈ setRecords (run (World.init n) (ops.filter fun o => !o.rejected)) lf := by
-  have h := Inv.run hdisj n ops (fun _ h => h) hv hrej (World.init n) (World.init n) (by simp [World.init])
-    (Inv.init ops n)
-  refine ⟨h.items, h.hdr, ?_⟩
-  intro lf ⟨k, its⟩
-  rw [mem_setRecords_iff, mem_setRecords_iff]
-  have hit : itemsOfKey (run (World.init n) ops) k = itemsOfKey (run (World.init n) (ops.filter fun o => !o.rejected)) k := by
-    simp [itemsOfKey, h.items]
-  rw [hit]
-  constructor
-  · rintro ⟨hk, rfl, hne⟩
-    refine ⟨?_, rfl, hne⟩
-    obtain ⟨i, hi⟩ := List.exists_mem_of_ne_nil _ hne
-    have hi' := hi
-    simp only [itemsOfKey, List.mem_filter, decide_eq_true_eq] at hi'
-    rw [← hi'.2] at hk ⊢
-    exact h.bf lf i hi'.1 hk
-  · rintro ⟨hk, rfl, hne⟩
-    exact ⟨h.sub lf k hk, rfl, hne⟩
+    by_cases h : op.rejected = true
+    · rw [run_cons, rejected_is_identity w op h, List.filter_cons_of_neg (by simp [h])]
+      exact ih w
+    · rw [List.filter_cons_of_pos (by simpa using h), run_cons, run_cons]
+      exact ih (step w op)
 
 end Dlis
